@@ -804,6 +804,7 @@ def entry_str(e):
 class CmRun:
     def __init__(self, table):
         self.entries = {}           # id(tuple) -> uid
+        self.meta = {}              # uid -> (name, num, subs)
         self.keep = []
         io = [self._mk(e) for e in table]
         self.cm = GP.ConstraintManager(io, [])
@@ -814,8 +815,18 @@ class CmRun:
     def _mk(self, e):
         t = make_entry(e)
         self.entries[id(t)] = e[0]
+        self.meta[e[0]] = (e[1], e[2], tuple(e[3]))
         self.keep.append(t)
         return t
+
+    def _check_answer(self, uids, name, nums, what):
+        """Oracle: the entries handed out / looked up carry the requested name and number."""
+        for uid, num in zip(uids, nums):
+            m = self.meta.get(uid)
+            if m is None or m[0] != name or (num is not None and m[1] != num):
+                if self.alarm is None:
+                    self.alarm = "%s(%s, %s) answered with table entry %s = %s" % (
+                        what, RES_NAMES[name], num, uid, None if m is None else (RES_NAMES[m[0]], m[1]))
 
     def _uid_of_obj(self, obj):
         for res, o in self.cm.matched:
@@ -859,12 +870,17 @@ class CmRun:
                     out = "none"
                 else:
                     self._note_grant([obj])
-                    out = "g:%d" % self._uid_of_obj(obj)[0]
+                    uid = self._uid_of_obj(obj)[0]
+                    self._check_answer([uid], op[1], [op[2]], "request")
+                    out = "g:%d" % uid
             elif k in ("QA", "QR"):
                 (cm.request_all if k == "QA" else cm.request_remaining)(RES_NAMES[op[1]])
                 new = cm.matched[before:]
                 self._note_grant([o for _, o in new])
-                out = "g:" + ",".join(str(self.entries[id(res)]) for res, _ in new)
+                uids = [self.entries[id(res)] for res, _ in new]
+                self._check_answer(uids, op[1], list(range(len(uids))) if k == "QA" else [None] * len(uids),
+                                   "request_all" if k == "QA" else "request_remaining")
+                out = "g:" + ",".join(map(str, uids))
             elif k == "L":
                 nm = RES_NAMES[op[1]] + (":s%d" % op[3] if op[3] is not None else "")
                 obj = cm.lookup_request(nm, op[2], loose=bool(op[4]))
@@ -874,6 +890,8 @@ class CmRun:
                     uid, sub = self._uid_of_obj(obj)
                     if uid is None and self.alarm is None:
                         self.alarm = "lookup_request returned an object that was never granted"
+                    elif uid is not None:
+                        self._check_answer([uid], op[1], [op[2]], "lookup_request")
                     out = "f:%s:%s" % (uid, onone(sub))
             elif k == "X":
                 cm.add_extension([self._mk(e) for e in op[2]], prepend=bool(op[1]))
